@@ -33,14 +33,6 @@ def run(tier, replay_file=None):
         R.cov["states"] += mc.distinct
         R.cov["transitions"] += mc.generated
     R.cov["exhaustive_bounds"] = "ids,events,steps <= (2,2,3)" + ("" if quick else ", (3,2,3), (2,3,3)")
-    if not quick:
-        cv = tlc.run("Abm", dict(consts(2, 1, 2, 50, '{0,30,100}', OPS_ALL), L='0'), invariants=INVS, view="ViewEv", spec="Spec", coverage=True)
-        if cv.violation:
-            R.violation("spec:" + cv.violation, {"trace": cv.trace[:3000]})
-        R.cov["tlc_actions"] = {k: v[1] for k, v in cv.coverage.items() if v[1] > 0 and k != "Init"}
-        for must in ("Create", "DoDelete", "DoSend", "DoPlan", "RunStep", "DoSetState"):
-            if cv.coverage.get(must, (0, 0))[1] == 0:
-                raise common.Machinery("action %s never taken in the exhaustive run (vacuous)" % must)
     # 2. spec -> code
     sets = []   # (histories, dt100, spawn)
     hs, _ = gen.histories("Abm", consts(3, 2, 3, 100, '{0,100}', '{"Create","Delete","Send","RunStep"}'), 4 if quick else 5)
@@ -78,6 +70,9 @@ def run(tier, replay_file=None):
         if len(R.violations) >= 30:
             break
     R.cov["ops_replayed"] = n_ops
+    for must in ("Create", "Delete", "Send", "Plan", "RunStep", "SetState", "Configure"):     # vacuity (TLC's -coverage exhausts the heap on Abm.tla)
+        if not R.violations and n_ops.get(must, 0) == 0:
+            raise common.Machinery("operation %s never occurs in the generated behaviours (vacuous)" % must)
     R.cov["events_handled_in_replays"] = handled_total
     if not R.violations and (handled_total < 50):
         raise common.Machinery("too few handled events in the generated behaviours (vacuous)")
